@@ -33,7 +33,7 @@ const c17FE = pattern.Filenames | pattern.EntireString
 // component names of the shared tree: level 1 and level 2
 var (
 	c17FnAlpha1 = []string{"a", "b", "B", ".", "[", "]", `\`, "-", "*"}
-	c17FnAlpha2 = []string{"a", "B", ".", "[", "]", "*"}
+	c17FnAlpha2 = []string{"a", "b", "B", ".", "[", "]", "*"}
 )
 
 type c17FnTree struct {
@@ -59,9 +59,23 @@ func c17FnNames(alpha []string) []string {
 	return out
 }
 
+// c17FnParent: the level-1 names that get level-2 entries (matching is per
+// path component, so the full cross product adds nothing): the one-character
+// names, a hidden directory and a two-letter one.
+func c17FnParent(name string) bool {
+	return len(name) == 1 || name == ".a" || name == "aB"
+}
+
 func c17FnSubjectCount() int {
-	n1, n2 := len(c17FnNames(c17FnAlpha1)), len(c17FnNames(c17FnAlpha2))
-	return 2 * (n1 + n1*n2)
+	n := 0
+	k2 := len(c17FnNames(c17FnAlpha2))
+	for _, a := range c17FnNames(c17FnAlpha1) {
+		n += 2
+		if c17FnParent(a) {
+			n += 2 * k2
+		}
+	}
+	return n
 }
 
 // c17FnSetup builds the shared read-only tree once per process. Every entry
@@ -80,6 +94,12 @@ func c17FnSetup() *c17FnTree {
 		k1, k2 := c17FnNames(c17FnAlpha1), c17FnNames(c17FnAlpha2)
 		for _, a := range k1 {
 			t.subj = append(t.subj, a, a+"/")
+			if !c17FnParent(a) {
+				if t.err = os.MkdirAll(filepath.Join(t.cwd, a), 0o755); t.err != nil {
+					return
+				}
+				continue
+			}
 			for _, b := range k2 {
 				if t.err = os.MkdirAll(filepath.Join(t.cwd, a, b), 0o755); t.err != nil {
 					return
@@ -228,6 +248,12 @@ func c17FilenamesBatch(c *vc.Ctx, batch []patCase, idx []int, fails []*vc.Fail) 
 			c.Count("filenames_skipped_absolute_pattern", 1)
 			continue
 		}
+		if strings.Contains(strings.ReplaceAll(pc.Pat, `\/`, "/"), "//") {
+			// an empty path component: bash's expansion normalises what it
+			// returns ("a//" comes back as "a/"), which says nothing about matching
+			c.Count("filenames_skipped_empty_component", 1)
+			continue
+		}
 		var expr string
 		var err error
 		if f := guard(key, func() { expr, err = pattern.Regexp(pc.Pat, mode) }); f != nil {
@@ -290,7 +316,7 @@ func c17FilenamesBatch(c *vc.Ctx, batch []patCase, idx []int, fails []*vc.Fail) 
 			script.WriteString(opts)
 			curOpts = opts
 		}
-		fmt.Fprintf(&script, "g %d %s\n", id, oracle.ShQuote(pc.Pat))
+		fmt.Fprintf(&script, "g %d %s\n", id, oracle.ShQuote(c17FnBashPattern(pc.Pat)))
 		pend = append(pend, pending{i, match, extras, expr})
 	}
 	if len(pend) == 0 {
@@ -337,7 +363,8 @@ func c17FilenamesBatch(c *vc.Ctx, batch []patCase, idx []int, fails []*vc.Fail) 
 		R, E := res[id][0], res[id][1]
 		expected := map[string]bool{}
 		globbed := true
-		if len(R) == 1 && R[0] == pc.Pat && len(E) == 1 && E[0] == pc.Pat && !c17HasUnescapedStarOrQuestion(pc.Pat) {
+		bp := c17FnBashPattern(pc.Pat)
+		if len(R) == 1 && R[0] == bp && len(E) == 1 && E[0] == bp && !c17HasUnescapedStarOrQuestion(pc.Pat) {
 			// bash did not treat the word as a pattern at all (it hands it
 			// back verbatim, backslashes included): nothing to learn from
 			// bash; the documented rule for a pattern without active
@@ -369,13 +396,44 @@ func c17FilenamesBatch(c *vc.Ctx, batch []patCase, idx []int, fails []*vc.Fail) 
 		var dsh []bool
 		nm := 0
 		inAll := map[string]bool{}
+		endsInSlash := strings.HasSuffix(pc.Pat, "/")
+		var foldExpected map[string]bool
+		if globbed && mode&pattern.NoGlobCase != 0 {
+			foldExpected = map[string]bool{}
+			for r := range expected {
+				foldExpected[strings.ToLower(r)] = true
+			}
+		}
 		judge := func(u string) {
 			inAll[u] = true
 			sh := p.match(u)
 			if sh {
 				nm++
 			}
-			if w := want(u); sh != w {
+			w := want(u)
+			if globbed && !w && !endsInSlash && strings.HasSuffix(u, "/") {
+				// "d/" stands for the directory d followed by an empty name.
+				// Pathname expansion never produces an empty name for a
+				// pattern that does not end in a slash, so bash says nothing
+				// about whether e.g. "a/*" matches "a/" (as a string it does)
+				return
+			}
+			if globbed && w && !sh && mode&pattern.NoGlobStar == 0 && strings.HasSuffix(pc.Pat, "/**") && !strings.HasSuffix(u, "/") && p.match(u+"/") {
+				// globstar: for "d/**" bash also returns the directory itself;
+				// it spells it "d/" when d is literal and "d" when d is a
+				// pattern ("?/**" gives "a", "a/**" gives "a/"); the expression
+				// accepts the spelling with the slash
+				return
+			}
+			if foldExpected != nil && sh && !w && foldExpected[strings.ToLower(u)] {
+				// nocaseglob: bash looks a path component without active
+				// metacharacters up by name instead of matching it, so it
+				// never returns the other spellings of that component; a
+				// subject differing only in case from a returned path is
+				// not judged when the expression accepts it
+				return
+			}
+			if sh != w {
 				if first == "" {
 					first = fmt.Sprintf("%q", u)
 				}
@@ -413,7 +471,7 @@ func c17FilenamesBatch(c *vc.Ctx, batch []patCase, idx []int, fails []*vc.Fail) 
 			continue
 		}
 		fails[p.i] = &vc.Fail{
-			Class:  c17FnClass(pc.Pat, mode, dsub, dsh),
+			Class:  c17FnClass(pc.Pat, mode, dsub, dsh, p.match(pc.Pat)),
 			Key:    fmt.Sprintf("%q mode=%s subj=%s", pc.Pat, modeString(mode), first),
 			Msg:    fmt.Sprintf("pattern %q mode %s (regexp %q): set of matching paths differs from bash pathname expansion: %s", pc.Pat, modeString(mode), p.expr, strings.Join(diffs, "; ")),
 			Detail: diffs,
@@ -424,6 +482,120 @@ func c17FilenamesBatch(c *vc.Ctx, batch []patCase, idx []int, fails []*vc.Fail) 
 // c17FnClass names the narrow families of Filenames-mode divergence recorded
 // as known findings. dsub are the subjects on which sh and bash differ, dsh[k]
 // tells whether sh matched dsub[k] (bash then did not).
-func c17FnClass(p string, mode pattern.Mode, dsub []string, dsh []bool) string {
-	return ""
+func c17FnClass(p string, mode pattern.Mode, dsub []string, dsh []bool, acceptsOwnText bool) string {
+	onlySh, onlyBash := true, true
+	for _, sh := range dsh {
+		if sh {
+			onlyBash = false
+		} else {
+			onlySh = false
+		}
+	}
+	if mode&pattern.GlobLeadingDot == 0 && onlySh {
+		// every path sh alone accepts has a component with a leading dot
+		allDot := true
+		for _, u := range dsub {
+			if !strings.HasPrefix(u, ".") && !strings.Contains(u, "/.") {
+				allDot = false
+			}
+		}
+		if allDot {
+			return "filenames-leading-dot-matched-without-literal-dot"
+		}
+	}
+	if c17FnBracketSpansSlash(p) && acceptsOwnText {
+		// a closed bracket expression holding a slash is emitted as its own
+		// text, verbatim (backslashes included, later metacharacters dead);
+		// bash separates the path components first, which makes the "[" an
+		// ordinary character and leaves the rest of the text a pattern
+		verbatim := true
+		for k, u := range dsub {
+			if dsh[k] && strings.TrimSuffix(u, "/") != strings.TrimSuffix(p, "/") {
+				verbatim = false
+			}
+		}
+		if verbatim {
+			return "filenames-bracket-holding-slash-taken-verbatim"
+		}
+	}
+	if mode&pattern.NoGlobStar == 0 && strings.Contains(p, `**\/`) && onlyBash {
+		return "filenames-globstar-before-escaped-slash"
+	}
+	// the families of the other modes (unterminated brackets and groups ...)
+	dbash := make([]bool, len(dsh))
+	for k, sh := range dsh {
+		dbash[k] = !sh
+	}
+	return c17Class(p, mode, dsub, dsh, dbash)
+}
+
+// c17FnBashPattern is the pattern text handed to bash: a backslash-escaped
+// slash is written as a plain slash. (An escaped slash is a slash; bash 5.2,
+// though, splits the pattern at it and then keeps the backslash as part of the
+// preceding component whenever that component has pattern characters, so that
+// `echo ?\/a` matches nothing at all - a quirk of its expansion code that says
+// nothing about matching.)
+func c17FnBashPattern(p string) string {
+	var sb strings.Builder
+	for i := 0; i < len(p); i++ {
+		if p[i] == '\\' && i+1 < len(p) {
+			if p[i+1] != '/' {
+				sb.WriteByte(p[i])
+			}
+			i++
+		}
+		sb.WriteByte(p[i])
+	}
+	return sb.String()
+}
+
+// c17FnBracketSpansSlash: reading the pattern the way this package does, some
+// bracket expression that closes holds a slash (plain or escaped).
+func c17FnBracketSpansSlash(p string) bool {
+	for i := 0; i < len(p); i++ {
+		switch p[i] {
+		case '\\':
+			i++
+		case '[':
+			j := i + 1
+			if j < len(p) && (p[j] == '!' || p[j] == '^') {
+				j++
+			}
+			if j < len(p) && p[j] == ']' {
+				j++
+			}
+			slash, closed := false, false
+		span:
+			for ; j < len(p); j++ {
+				switch p[j] {
+				case '\\':
+					j++
+					if j < len(p) && p[j] == '/' {
+						slash = true
+					}
+				case '/':
+					slash = true
+				case '[':
+					if j+1 < len(p) && p[j+1] == ':' {
+						if e := strings.Index(p[j+2:], ":]"); e >= 0 {
+							if strings.Contains(p[j:j+2+e], "/") {
+								slash = true
+							}
+							j += 2 + e + 1
+						}
+					}
+				case ']':
+					closed = true
+					break span
+				}
+			}
+			if closed {
+				if slash {
+					return true
+				}
+				i = j
+			}
+		}
+	}
+	return false
 }
